@@ -10,6 +10,7 @@ mod server;
 mod hist;
 mod oracle;
 mod sim;
+mod stdio;
 
 use hist::*;
 use oracle::*;
@@ -319,6 +320,38 @@ fn run(tier: Tier, seed: u64) -> i32 {
 
     let mut verdicts = vcore::Verdicts::new(PROP);
     let mut samples: Vec<Value> = vec![];
+    // ---- second layer: the real binary over stdio (uncontrolled scheduling; integration evidence) ----------
+    stdio::build_server();
+    let n_stdio = tier.pick(48usize, 400usize);
+    let stdio_results: Mutex<Vec<(usize, Option<(String, String)>, usize)>> = Mutex::new(vec![]);
+    std::thread::scope(|sc| {
+        for w in 0..nworkers {
+            let (pool, root, stdio_results) = (&pool, &root, &stdio_results);
+            sc.spawn(move || {
+                let mut hi = w;
+                while hi < n_stdio {
+                    let h = generate(&mut root.child("history", hi as u64), pool, max_steps);
+                    let l1 = execute(&h.to_messages(), &SchedSpec::RoundRobin);
+                    let mut rng = root.child("stdio-pacing", hi as u64);
+                    let out = stdio::run(&h, &mut rng);
+                    // only compare when layer 1 itself ended normally (its own violations are reported by layer 1)
+                    let v = if matches!(l1.main, MainEnd::Ok) { stdio::compare(&l1.replies, &out) } else { None };
+                    stdio_results.lock().unwrap().push((hi, v, out.writes));
+                    hi += nworkers;
+                }
+            });
+        }
+    });
+    let mut stdio_results = stdio_results.into_inner().unwrap();
+    stdio_results.sort_by_key(|r| r.0);
+    let stdio_runs = stdio_results.len();
+    let stdio_writes: usize = stdio_results.iter().map(|r| r.2).sum();
+    for (hi, v, _) in &stdio_results {
+        if let Some((class, detail)) = v {
+            let h = generate(&mut root.child("history", *hi as u64), &pool, max_steps);
+            verdicts.violation(&format!("C20.{class}"), &json!({"engine": "lspsim", "seed": seed, "layer": "stdio", "violation": {"class": class, "detail": detail}, "history": h, "schedule": [], "original_history_index": hi}));
+        }
+    }
     for f in &found {
         if verdicts.is_known(&f.sig) {
             verdicts.violation(&f.sig, &json!({}));
@@ -402,6 +435,7 @@ fn run(tier: Tier, seed: u64) -> i32 {
                 "formatting_edits_applied_and_compared": stats.formatting_checked,
             },
             "text_pool_size": pool.texts.len(),
+            "second_layer_real_binary_over_stdio": {"histories": stdio_runs, "write_calls_with_seeded_chunking": stdio_writes, "note": "scheduling of the real process is not controlled; integration evidence only"},
             "executions_per_hour": (stats.executions as f64 / wall * 3600.0) as u64,
             "simulated_time_s": 0,
             "simulated_time_note": "the server has no timer; the only timed wait (lsp-server's 30 s recv_timeout for `exit`) never waits because `exit` is always queued",
